@@ -35,32 +35,44 @@ def levels_class(lv):
 
 
 def act_signature(e, kind):
+    """failing input class: the family, what disagreed, and the configured fields that bear on it"""
     c = e.get("c", {})
     ev = e["ev"]
     if ev == "hdr":
         side = e["rc"] if kind == "response-headers" else c
         return "C17:hdr:%s:%s" % (kind, levels_class(side["lv"]))
     if ev == "path":
-        what = [k for k in ("pr", "hr", "ahrh") if c.get(k)] + (["rr"] if c.get("rr") != "none" else [])
-        return "C17:path:%s:rule=%s:%s" % (kind, c.get("rule"), "+".join(what) or "plain")
+        if kind == "host-rewrite":
+            what = "+".join([k for k in ("hr", "ahrh") if c.get(k)] + (["route-adds-header"] if c.get("radd") else [])) or "plain"
+        elif kind in ("path-rewrite", "original-path-header"):
+            what = "prefix_rewrite" if c.get("pr") else ("regex_rewrite" if c.get("rr") != "none" else "plain")
+        else:
+            what = "any"
+        return "C17:path:%s:rule=%s:%s" % (kind, c.get("rule"), what)
     if ev == "redir":
-        what = [k for k in ("scheme", "rhost", "rpath") if c.get(k)] + (["code"] if c.get("code") else [])
-        port = c.get("host", {}).get("p") or "none"
-        return "C17:redirect:%s:%s:port=%s" % (kind, "+".join(what) or "bare", port)
+        if kind == "redirect-status":
+            return "C17:redirect:%s:code=%s" % (kind, "default" if not c.get("code") else "configured")
+        what = [k for k in ("scheme", "rhost", "rpath") if c.get(k)]
+        return "C17:redirect:%s:%s:port=%s" % (kind, "+".join(what) or "bare", c.get("host", {}).get("p") or "none")
     if ev == "direct":
         return "C17:direct:%s:body=%s" % (kind, "yes" if c.get("body") else "no")
     if ev == "tmo":
-        src = [n for n, k in (("protocol", "vg"), ("protocol-try", "vt"), ("header", "hg"), ("header-try", "ht")) if c.get(k, -1) != -1]
-        src += [n for n, k in (("route", "rg"), ("route-try", "rt")) if c.get(k, 0) != 0]
-        return "C17:timeout:%s:%s:%s" % (kind, e.get("via"), "+".join(src) or "default")
+        keys = (("protocol", "vg", -1), ("header", "hg", -1), ("route", "rg", 0)) if kind == "timeout-global" else \
+               (("protocol-try", "vt", -1), ("header-try", "ht", -1), ("route-try", "rt", 0))
+        src = [n for n, k, none in keys if c.get(k, none) != none]
+        return "C17:timeout:%s:%s" % (kind, "+".join(src) or "default")
     return "C17:%s:%s" % (ev, kind)
 
 
 def retry_signature(runev, kind, rt=None):
     pol = (runev or {}).get("pol", {})
-    cls = "retry_on=%s:codes=%s:num_retries=%s" % (str(pol.get("on")).lower(), "listed" if pol.get("codes") else "none", pol.get("n"))
     if kind == "no-reply":      # the policy matters less than how far the request got
         return "C17:retry:no-reply:after-%d-attempts" % sum(1 for e in (rt or []) if e["ev"] == "att")
+    cls = "retry_on=%s:codes=%s" % (str(pol.get("on")).lower(), "listed" if pol.get("codes") else "none")
+    if kind.startswith("attempts-exceed-budget"):
+        cls = "num_retries=%s" % pol.get("n")
+    elif kind.startswith("retry-on-same-host") or kind.startswith("attempt-after-reply"):
+        cls = "cluster=%s" % ("request-round-robin" if str((runev or {}).get("cluster", "")).startswith(("p", "q")) else "round-robin")
     return "C17:retry:%s:%s" % (kind, cls)
 
 
@@ -141,6 +153,10 @@ def run(ctx):
     for t in act_traces + [tmo_trace]:
         act_lines += open(t).read().splitlines()
     retry_traces, retry_results = lc.run_sharded(ctx, "c17", retry, 12 if q else 14, ["-mode", "retry"], timeout=3000)
+    stalled = sum(1 for r in retry_results if r.get("stalled"))
+    ctx.cov["runs_dropped_machine_stalled"] = stalled
+    if stalled * 20 > len(retry):
+        raise vlib.Inconclusive("the machine stalled during %d of %d retry runs" % (stalled, len(retry)))
     retry_lines = []
     for t in retry_traces:
         retry_lines += open(t).read().splitlines()
